@@ -186,7 +186,7 @@ func (w *bworld) checkGranted(sp *bspec, ar *fosite.AccessRequest, nBefore int, 
 			zz.Assert(c.err == nil, tag+": MarkJWTUsedForTime returned nil")
 			zz.Assert(c.jti == sp.jti.s, tag+": the marked jti is the assertion's jti")
 			if sp.exp.kind == "num" {
-				zz.Assert(c.exp.Equal(time.Unix(sp.exp.n, 0)), tag+": the mark lives until the assertion's exp")
+				zz.Assert(!c.exp.Before(time.Unix(sp.exp.n, 0)), tag+": the mark lives at least until the assertion's exp")
 			}
 		}
 	} else {
